@@ -486,14 +486,17 @@ package internal
 //@   ensures result1 == nil ==> allRefsNonNil(result0)                # name: refs-non-nil
 //@   ensures upstreamCalls == old(upstreamCalls)
 
+// lastLoaded: what the last ResponseCache.Get returned (nil when it failed)
+//@ ghost var lastLoaded *Response
 // loadedFrom(e): the response ID a stored entry was loaded under
 //@ spec func loadedFrom(e *Response) string
 //@ iface ResponseCache.Get(c, key, req)
 //@   property C10
-//@   pure
+//@   assigns lastLoaded
 //@   ensures upstreamCalls == old(upstreamCalls)
 //@   ensures (result0 != nil) != (result1 != nil)
 //@   ensures result0 != nil ==> loadedFrom(result0) == key                          # ghost-update
+//@   ensures lastLoaded == result0                                                   # ghost-update
 //@   ensures result0 != nil ==> result0.Data != nil && result0.Data.Header != nil && fresh(result0) && fresh(result0.Data) && fresh(result0.Data.Header)
 
 //@ iface VaryMatcher.VaryHeadersMatch(m, entries, reqHdr)
@@ -571,8 +574,9 @@ package internal
 //@   requires storableReq(req)                                                      # name: request-storable
 //@   requires storableResp(resp)                                                    # name: response-storable
 //@   requires refs == indexRead || len(refs) == 0                                   # name: refs-is-the-index-read-in-this-exchange   props: C08
-//@   assigns storeWrites, lastSetOK, lastSetKey, lastRefs, bodyReadFailed, map(resp.Header), resp.Body, now, lastStoredResp, lastStoredReqTime, lastStoredRespTime, lastStoredRefIndex
+//@   assigns storeWrites, lastSetOK, lastSetKey, lastRefs, bodyReadFailed, deletedKeys, map(resp.Header), resp.Body, now, lastStoredResp, lastStoredReqTime, lastStoredRespTime, lastStoredRefIndex
 //@   ensures resp.Header != nil
+//@   ensures forall x string :: old(deletedKeys)[x] ==> deletedKeys[x]             # name: deletions-accumulate
 //@   ensures lastStoredResp == resp && lastStoredReqTime == reqTime && lastStoredRespTime == respTime && lastStoredRefIndex == refIndex     # ghost-update
 //@   ensures storeWrites >= old(storeWrites)                                        # ghost-update
 //@   ensures result == nil ==> len(lastRefs) >= 1 && len(lastRefs) <= len(refs) + 1                                          # name: index-grows-by-at-most-one   props: C19
@@ -1111,3 +1115,7 @@ package internal
 //@   pure
 //@   ensures !hasPfx(s, "\x00b64:") ==> result0 == s && result1 == nil        # name: plain-strings-read-as-written
 //@   ensures forall x string :: s == escOf(x) ==> result0 == x && result1 == nil                  # name: decoding-undoes-encoding
+//@ func (ResponseRef).MarshalJSON
+//@   property C04 C09 C19
+//@   pure
+//@   loop 0 invariant forall k string :: has(out.VaryResolved, k) ==> validUTF8(k) && validUTF8(get(out.VaryResolved, k))
